@@ -1,7 +1,9 @@
 //! bumpmc — bounded-exhaustive explorer for bumpalo (see /verif/DESIGN.md).
 
 pub mod arena;
+pub mod boxmodel;
 pub mod coll;
+pub mod decoders;
 pub mod env;
 pub mod grid;
 pub mod overflow;
@@ -44,6 +46,7 @@ fn profile_of(s: &str) -> arena::Profile {
         "capprobe" => CapProbe,
         "layera" => LayerA,
         "uniform" => Uniform,
+        "panics" => Panics,
         _ => {
             eprintln!("MACHINERY: unknown profile {s}");
             std::process::exit(2)
@@ -175,6 +178,9 @@ fn main() {
                 "capacity" => grid::GridKind::Capacity,
                 "growth" => grid::GridKind::Growth,
                 "overflow" => grid::GridKind::Overflow,
+                "decoders" => grid::GridKind::Decoders,
+                "vecgrowth" => grid::GridKind::VecGrowth,
+                "box" => grid::GridKind::BoxChains,
                 k => {
                     eprintln!("MACHINERY: unknown grid kind {k}");
                     std::process::exit(2)
@@ -214,7 +220,8 @@ fn main() {
                 max_states_per_level: usize::MAX,
             };
             let rep = mc::explore(&model, &p);
-            let j = report_json(&rep, serde_json::json!({"engine": "grid", "kind": format!("{:?}", kind), "thorough": thorough, "threads": threads}));
+            let inputs = grid::INPUTS.load(std::sync::atomic::Ordering::Relaxed);
+            let j = report_json(&rep, serde_json::json!({"engine": "grid", "kind": format!("{:?}", kind), "thorough": thorough, "threads": threads, "inputs_checked_inside_cases": inputs}));
             let out = a.get("out").cloned().unwrap_or("/dev/stdout".into());
             std::fs::write(&out, serde_json::to_string_pretty(&j).unwrap()).unwrap();
         }
